@@ -648,6 +648,7 @@ func (fv *FV) runInstrs(fr *Frame, st *State, b *ssa.BasicBlock, instrs []ssa.In
 			for _, r := range x.Results {
 				res = append(res, fv.val(fr, r))
 			}
+			fv.flushSide(st)
 			fv.pathDone()
 			return []Outcome{{st: st, results: res}}
 		case *ssa.Panic:
@@ -849,6 +850,12 @@ func (fv *FV) stringConst(s string) Value {
 		// the text of a constant is immutable: its content id is a fixed, constant-specific number
 		row := Select(Var("M_Int_0_0", ArraySort(RefSort, ArraySort(IntSort, IntSort))), arr)
 		fv.side = append(fv.side, Eq(App("content", IntSort, row, v.Off, v.Len), IntLit(int64(-id))))
+		// the bytes of a short constant are known
+		if len(s) <= 16 {
+			for k := 0; k < len(s); k++ {
+				fv.side = append(fv.side, Eq(Select(row, IntLit(int64(k))), IntLit(int64(s[k]))))
+			}
+		}
 	}
 	return v
 }
